@@ -41,7 +41,7 @@ for prop, diff in items:
     ev = os.path.join(V, 'evidence', prop + '.json')
     saved_ev = open(ev).read() if os.path.exists(ev) else None
     try:
-        c = subprocess.run([os.path.join(V, 'check'), prop], capture_output=True, text=True, cwd=V)
+        c = subprocess.run([os.path.join(V, 'check'), prop], capture_output=True, text=True, cwd=V, timeout=3600)
         viol = [l for l in c.stdout.splitlines() if l.startswith('VIOLATION')]
         ok = c.returncode == 1 and viol
         print(f"{'CAUGHT' if ok else 'MISSED'} {prop} {os.path.relpath(diff, V)} exit={c.returncode} "
